@@ -8,9 +8,9 @@
 
    Definitions only; proofs are in FilterProofs.v.
 
-   The model follows the code as it is *now*.  Places where the current code
-   raises (instead of answering "no match") are modelled as [Err]/[OX] and are
-   marked FINDING; they are the witnesses of C18_never_error_refuted.
+   The model follows the code as it is now (after fixes ee20324, 2a50dc8): _val_matches
+   answers a real bool for every operator and every pair of types; the only exceptions
+   left are those raised while an ill-formed expected value is resolved ([OX]/[Err]).
 
    Strings are lists of code points ([list N]); bytes are lists of [N] < 256.
    Python values that can reach _apply_operator are the type [pv]. *)
